@@ -224,16 +224,25 @@ impl Field for Q128 {
             return Self::fzero();
         }
         let inv = if o.n < 0 {
-            Q128 { n: -o.d, d: -o.n }
+            match (o.d.checked_neg(), o.n.checked_neg()) {
+                (Some(n), Some(d)) => Q128 { n, d },
+                _ => {
+                    flag();
+                    return Self::fzero();
+                }
+            }
         } else {
             Q128 { n: o.d, d: o.n }
         };
         self.mul(&inv)
     }
     fn neg(&self) -> Self {
-        Q128 {
-            n: -self.n,
-            d: self.d,
+        match self.n.checked_neg() {
+            Some(n) => Q128 { n, d: self.d },
+            None => {
+                flag();
+                Self::fzero()
+            }
         }
     }
     fn is_zero(&self) -> bool {
